@@ -408,7 +408,7 @@ Proof.
   - destruct (is_default_candidate q prio).
     + destruct (interface_by_index cfg (rt_link q)) as [i|e] eqn:Hi; [|discriminate].
       destruct (get_interface_ip i) as [ipo|e] eqn:Hip; [|discriminate].
-      apply (IH _ _ _ (fun x => x) H) || (eapply IH; [|exact H]).
+      eapply IH; [|exact H].
       cbn. split; [exact (proj1 (interface_by_index_inv _ _ _ Hi))|exact (get_interface_ip_good _ _ Hip)].
     + eapply IH; [exact Hc|exact H].
 Qed.
